@@ -72,12 +72,25 @@ def _run(cmd):
     return r.returncode, r.stdout.decode("utf-8", "replace"), cmd
 
 
-def _prune(flavour, keep):
+def _prune(flavour, keep, keep_n=3):
+    """Drop stale object directories of this flavour, keeping the newest few (concurrent checks against
+    differently patched trees must not delete each other's builds) and anything touched in the last 10 minutes."""
     if not os.path.isdir(BUILD):
         return
+    import time
+    now = time.time()
+    cands = []
     for d in os.listdir(BUILD):
         if d.startswith(flavour + "-") and d != keep:
-            shutil.rmtree(os.path.join(BUILD, d), ignore_errors=True)
+            p = os.path.join(BUILD, d)
+            try:
+                cands.append((os.path.getmtime(p), p))
+            except OSError:
+                pass
+    cands.sort(reverse=True)
+    for mt, p in cands[keep_n:]:
+        if now - mt > 600:
+            shutil.rmtree(p, ignore_errors=True)
 
 
 class BuildError(Exception):
